@@ -11,4 +11,11 @@ pub proof fn axiom_cloned_builder<K, S: Clone>(a: S, b: S)
     ensures forall|q: &K| spec_hash::<K, S>(a, q) == spec_hash::<K, S>(b, q)
 { }
 
+/// a hasher is assumed to agree on a value and its clone (lawful Hash/Clone), element-wise form
+#[verifier::external_body]
+pub proof fn axiom_hasher_agrees_on_clone<T: Clone, H: Fn(&T) -> u64>(h: H, a: T, hash: u64)
+    requires h.ensures((&a,), hash)
+    ensures forall|b: T| #[trigger] call_ensures(T::clone, (&a,), b) ==> h.ensures((&b,), hash)
+{ }
+
 } // verus!
